@@ -945,17 +945,21 @@ class CParser(RecursiveDescentParser):
         location = self.consume("for").loc
         self.semantics.enter_scope()  # for loops have their own scope.
         self.consume("(")
+        declaration_statements = None
         if self.peek == ";":
             initial = None
         else:
             if self.is_declaration_statement():
                 # C99 only, declaration inside for-loop!
+                # Collect the declaration statement here, instead of in the
+                # enclosing compound statement: the loop might be the
+                # un-braced body of another loop.
+                self.semantics.compounds.append([])
                 decl_spec = self.parse_decl_specifiers()
                 declaration = self.parse_declarator()
-                variable_declaration = self.parse_variable_declaration(
-                    decl_spec, declaration
-                )
-                initial = variable_declaration
+                self.parse_variable_declaration(decl_spec, declaration)
+                declaration_statements = self.semantics.compounds.pop()
+                initial = None
             else:
                 initial = self.parse_expression()
         self.consume(";")
@@ -974,7 +978,15 @@ class CParser(RecursiveDescentParser):
 
         body = self.parse_statement()
         self.semantics.leave_scope()
-        return self.semantics.on_for(initial, condition, post, body, location)
+        statement = self.semantics.on_for(
+            initial, condition, post, body, location
+        )
+        if declaration_statements is not None:
+            # for (int i = 0; ..) .. is { int i = 0; for (; ..) .. }
+            statement = statements.Compound(
+                declaration_statements + [statement], location
+            )
+        return statement
 
     def parse_return_statement(self):
         """Parse a return statement"""
